@@ -738,6 +738,14 @@ class Repo:
                     if kw.arg == "flags":
                         flags = self._fold_flags(module, kw.value)
                 return Regex(f(e.args[0]), flags)
+            if (q in ("str.maketrans", "bytes.maketrans") or (isinstance(e.func, ast.Attribute) and e.func.attr == "maketrans" and isinstance(e.func.value, ast.Name) and e.func.value.id in ("str", "bytes"))) \
+                    and 1 <= len(e.args) <= 3 and not e.keywords:
+                # a translation table is data: built by the (pure) library function from constant arguments
+                args = [f(a) for a in e.args]
+                try:
+                    return (bytes if (isinstance(e.func, ast.Attribute) and isinstance(e.func.value, ast.Name) and e.func.value.id == "bytes") else str).maketrans(*args)
+                except Exception:
+                    raise NotConst("maketrans")
             if q in ("set", "frozenset", "tuple", "list") and len(e.args) == 1:
                 return {"set": set, "frozenset": frozenset, "tuple": tuple, "list": list}[q](f(e.args[0]))
             if isinstance(e.func, ast.Attribute) and e.func.attr in ("split", "lower", "upper", "strip", "join", "encode"):
